@@ -1177,6 +1177,85 @@ fn port_perturb_programs(out: &mut Vec<ProgOut>, rng: &mut Rng) {
     }
 }
 
+// ------------------------------------------------------------------ user closures deciding the order
+
+/// `sort_by_key` with a key that is NOT order-compatible with the item's own `Ord`, made observable as a
+/// sequence (the stock menu entries `kfst` / `ksnd` are compared as bags: the sort is unstable):
+///  * `sortk_items`: items `(x % 4, x)` sorted by `&x.1` - the key determines the item, so the order is
+///    exact; by the whole item they would come grouped by `x % 4`;
+///  * `sortk_keys`: items `(x, x % 3)` sorted by `&x.1`, then projected to the key - the sequence of keys is
+///    exact although items with equal keys may come in any order;
+///  * `sortk_fst`: items `(x % 4, x)` sorted by `&x.0`, projected to the key (control: compatible with Ord).
+/// Each in the three contexts (plain, behind a tee = push side, in front of a union = pull side) for C21 and
+/// as C22 pairs (original, variant forced onto the push side / onto the pull side / both / identity).
+fn keyed_chain(b: &mut Builder, s: &Out, which: &str) -> (Out, usize) {
+    // returns (output, id of the sort_by_key node)
+    match which {
+        "sortk_items" => {
+            let k = b.un(s, "map kvk", "map(|x: u64| (hv(&x) % 4, x))", p(N, N), s.ordered, s.est, false);
+            let o = b.un(&k, "sort_by_key ksnd", "sort_by_key(|x: &(u64, u64)| &x.1)", p(N, N), true, s.est, false);
+            let sid = o.node;
+            (b.un(&o, "map id", "map(|x: (u64, u64)| x)", p(N, N), true, s.est, false), sid)
+        }
+        "sortk_keys" => {
+            let k = b.un(s, "map kv3", "map(|x: u64| { let h = hv(&x); (h % 3, h) })", p(N, N), s.ordered, s.est, false);
+            let w = b.un(&k, "map swap", "map(|x: (u64, u64)| (x.1, x.0))", p(N, N), s.ordered, s.est, false);
+            let o = b.un(&w, "sort_by_key ksnd", "sort_by_key(|x: &(u64, u64)| &x.1)", p(N, N), false, s.est, false);
+            let sid = o.node;
+            (b.un(&o, "map snd", "map(|x: (u64, u64)| x.1)", N, true, s.est, false), sid)
+        }
+        "sortk_fst" => {
+            let k = b.un(s, "map kvk", "map(|x: u64| (hv(&x) % 4, x))", p(N, N), s.ordered, s.est, false);
+            let o = b.un(&k, "sort_by_key kfst", "sort_by_key(|x: &(u64, u64)| &x.0)", p(N, N), false, s.est, false);
+            let sid = o.node;
+            (b.un(&o, "map fst", "map(|x: (u64, u64)| x.0)", N, true, s.est, false), sid)
+        }
+        _ => panic!(),
+    }
+}
+
+fn keyed_programs(out: &mut Vec<ProgOut>) {
+    let mut c = 0usize;
+    for which in ["sortk_items", "sortk_keys", "sortk_fst"] {
+        // C21: the sort directly behind a 2-way tee (push side) / its consumer in front of a 2-way union (pull side)
+        for ctx in 0..4 {
+            let mut b = Builder::default();
+            let s = b.source();
+            let (o, sid) = keyed_chain(&mut b, &s, which);
+            let consumer = o.node;
+            b.sink(&o);
+            let mut lines = vec![];
+            let mut v = b.clone();
+            v.next_id = b.next_id + 100;
+            if ctx == 1 || ctx == 3 {
+                lines.push(perturb_at(&mut v, sid, 0, "tee_null"));
+            }
+            if ctx == 2 || ctx == 3 {
+                lines.push(perturb_at(&mut v, consumer, 0, "union_empty"));
+            }
+            // the C21 program is the perturbed one itself (its own description), no variant
+            let _ = lines;
+            out.push(ProgOut { name: format!("k{c}"), kind: "keyed", b: v, variant: None, oracle: which.into(), desc_override: None, run_alias: None });
+            c += 1;
+        }
+        // C22 pairs sharing the plain original
+        let mut b = Builder::default();
+        let s = b.source();
+        let (o, sid) = keyed_chain(&mut b, &s, which);
+        let consumer = o.node;
+        b.sink(&o);
+        let orig = format!("k{c}");
+        let plans: [&[(usize, &str)]; 5] = [&[(sid, "tee_null")], &[(consumer, "union_empty")], &[(sid, "tee_null"), (consumer, "union_empty")], &[(sid, "identity")], &[(sid, "tee1"), (consumer, "union1")]];
+        for (vi, steps) in plans.iter().enumerate() {
+            let mut v = b.clone();
+            v.next_id = b.next_id + 100;
+            let lines: Vec<String> = steps.iter().map(|(t, st)| perturb_at(&mut v, *t, 0, st)).collect();
+            out.push(ProgOut { name: if vi == 0 { orig.clone() } else { format!("{orig}_{vi}") }, kind: "keyed", b: b.clone(), variant: Some((lines, v)), oracle: which.into(), desc_override: None, run_alias: if vi == 0 { None } else { Some(orig.clone()) } });
+        }
+        c += 1;
+    }
+}
+
 // ------------------------------------------------------------------ wiring of the partitioned graph
 
 fn is_splice(n: &NodeD) -> bool {
@@ -1365,6 +1444,8 @@ fn main() {
     splice_blocking_programs(&mut progs, &mut rngs);
     let mut rngp = root.fork(5);
     port_perturb_programs(&mut progs, &mut rngp);
+    // sort_by_key with keys that disagree with the item order, observable as sequences, on both sides
+    keyed_programs(&mut progs);
 
     // the wiring the real dfir_lang pipeline gives every program; a program whose inputs it connects
     // differently from the text in a way rustc may reject is replaced by a stub (reported by the harness)
